@@ -462,28 +462,28 @@ func (a *aggregate) writeEvidence(m Meta, prop, tier string, base uint64, total,
 		"violations":  unknown,
 		"assumptions": m.Assumptions,
 		"coverage": map[string]interface{}{
-			"evaluations":            a.evals,
-			"distinct_nontrivial":    len(a.keys),
-			"rule":                   m.Rule,
-			"distinct_state_measure": m.StateRule,
-			"samples":                samples,
-			"simulated_runs":         total,
-			"runs_per_hour":          perHour,
-			"seeds_per_hour":         perHour,
-			"workers":                nw,
-			"sim_io_ops":             a.simOps,
-			"simulated_time":         "n/a — gts has no timers, clocks or deadlines; progress is measured in simulated I/O operations (sim_io_ops)",
-			"faults_fired":           a.faults,
-			"faults_fired_total":     a.faultTotal(),
-			"probes":                 a.probes,
-			"probes_at_zero":         zeroProbes,
-			"state_keys_sample":      sampleKeys,
-			"extended_observations":  a.extended,
+			"evaluations":             a.evals,
+			"distinct_nontrivial":     len(a.keys),
+			"rule":                    m.Rule,
+			"distinct_state_measure":  m.StateRule,
+			"samples":                 samples,
+			"simulated_runs":          total,
+			"runs_per_hour":           perHour,
+			"seeds_per_hour":          perHour,
+			"workers":                 nw,
+			"sim_io_ops":              a.simOps,
+			"simulated_time":          "n/a — gts has no timers, clocks or deadlines; progress is measured in simulated I/O operations (sim_io_ops)",
+			"faults_fired":            a.faults,
+			"faults_fired_total":      a.faultTotal(),
+			"probes":                  a.probes,
+			"probes_at_zero":          zeroProbes,
+			"state_keys_sample":       sampleKeys,
+			"extended_observations":   a.extended,
 			"known_findings_observed": a.known,
-			"components":             map[string]interface{}{"real": m.Real, "stub": m.Stub},
-			"not_decided":            m.NotDecided,
-			"batch_digest":           hex.EncodeToString(a.digest),
-			"exhaustive":             false,
+			"components":              map[string]interface{}{"real": m.Real, "stub": m.Stub},
+			"not_decided":             m.NotDecided,
+			"batch_digest":            hex.EncodeToString(a.digest),
+			"exhaustive":              false,
 		},
 	}
 	b, err := json.MarshalIndent(ev, "", " ")
